@@ -58,6 +58,8 @@ def rand_text(r, enc=None):
             if 0xD800 <= cp <= 0xDFFF:
                 cp = 0x41
             out.append(chr(cp))
+    if out and hi > 0xFFFF and r.random() < 0.12:
+        out[0] = BOMS[0]  # the value itself STARTS with U+FEFF (a byte-order mark that is data, not markup)
     s = "".join(out)
     if n >= 1000:
         s = (s * (n // max(1, len(s)) + 1))[:n]
